@@ -412,8 +412,11 @@ class Engine:
         if m:
             return z3.BitVec("DEFAULT_OVERSAMPLING", 64)
         if tok.startswith("const "):
-            # function items, zero-sized constants, promoted statics
-            return FnItem(tok[6:].strip())
+            # function items, zero-sized constants (closures without captures), promoted statics
+            name = tok[6:].strip()
+            if name.startswith("ZeroSized: "):
+                name = name[len("ZeroSized: "):]
+            return FnItem(name)
         raise Unknown("constant: " + tok)
 
     def operand(self, st, fr, tok):
@@ -907,9 +910,11 @@ class Engine:
                     res.append(s2)
                 return res
         # 3. inline the callee's MIR
-        for rx, fn_rx in self.inline:
+        for ent in self.inline:
+            rx, fn_rx = ent[0], ent[1]
+            hdr = ent[2] if len(ent) > 2 else None
             if rx.search(callee):
-                hits = [n for n in self.fns if re.search(fn_rx, n)]
+                hits = [n for n in self.fns if re.search(fn_rx, n) and (hdr is None or hdr in self.fns[n].header)]
                 if len(hits) != 1:
                     raise Unknown(f"inline target for {callee}: {len(hits)} candidates")
                 target = self.fns[hits[0]]
